@@ -103,6 +103,20 @@ Theorem C07_post_store_independent : forall (m0 m0' : memory) ps, mem_wf m0 -> m
 Proof. exact post_store_independent. Qed.
 Print Assumptions C07_post_store_independent.
 
+(* both at once: two runs of "post ps1, the store grows, post ps2" from two arbitrary stores with two arbitrary
+   growths (across any size) accept the same posts and admit the same user assignments *)
+Theorem C07_post_span_store_independent : forall (m0 m0' : memory) ps1 ps2,
+  mem_wf m0 -> mem_wf m0' -> Forall post_ok ps1 -> Forall post_ok ps2 ->
+  exists m1 s1 m1' s1' sts1,
+    run_posts m0 empty_mgr ps1 = Some (m1, s1, sts1) /\ run_posts m0' empty_mgr ps1 = Some (m1', s1', sts1) /\
+    forall ex ex' : memory, mem_wf (m1 ++ ex) -> mem_wf (m1' ++ ex') ->
+      exists m2 s2 m2' s2' sts2,
+        run_posts (m1 ++ ex) s1 ps2 = Some (m2, s2, sts2) /\ run_posts (m1' ++ ex') s1' ps2 = Some (m2', s2', sts2) /\
+        (forall a, ext a (clauses s2) <-> ext a (clauses s2')) /\
+        (forall a, ext a (clauses s2) <-> accepted_hold a ps1 sts1 /\ accepted_hold a ps2 sts2).
+Proof. exact post_span_store_independent. Qed.
+Print Assumptions C07_post_span_store_independent.
+
 (* C07_post_exact quantifies over EVERY well-formed store; the hypothesis is satisfiable at every size *)
 Theorem C07_post_exact_any_size : forall n ps, Forall post_ok ps ->
   exists m0 : memory, List.length m0 = n /\ mem_wf m0 /\
